@@ -46,10 +46,10 @@ def _compositions(n, max_parts):
 
 
 @contract('C11', 'pca_increment_native', level='bounded', native_samples=2, tol=1e-6,
-          configs=[dict(n=n, d=d, centre=c, backed=b, precentred=pc) for (n, d) in ((6, 3), (7, 10), (9, 4)) for c in (True, False)
-                   for b in ('vector', 'pointcloud') for pc in (False, True) if not (pc and not c)],
+          configs=[dict(n=n, d=d, centre=c, backed=b, precentred=pc, lowered_active=la) for (n, d) in ((6, 3), (7, 10), (9, 4)) for c in (True, False)
+                   for b in ('vector', 'pointcloud') for pc in (False, True) for la in (False, True) if not (pc and not c) and not (la and pc)],
           functions=['menpo.math.decomposition:ipca', 'menpo.model.pca:PCAVectorModel.increment'])
-def pca_increment_native(ctx, n, d, centre, backed, precentred):
+def pca_increment_native(ctx, n, d, centre, backed, precentred, lowered_active=False):
     """bounded stand-in: every composition of n samples into an initial batch
     (>= 2 samples) plus increments gives the batch model: sample count, mean,
     eigenvalues, principal subspace."""
@@ -76,6 +76,9 @@ def pca_increment_native(ctx, n, d, centre, backed, precentred):
             X[:parts[0]] -= X[:parts[0]].mean(0)
             batch = cls(wrap(X), centre=centre)
         m = cls(wrap(X[:parts[0]]), centre=centre)
+        if lowered_active and m.n_components > 1:
+            # fewer components active than stored (nothing trimmed): increments must still update the whole stored model
+            m.n_active_components = 1
         pos = parts[0]
         tag = 'split%s' % parts
         for p in parts[1:]:
